@@ -92,6 +92,45 @@ def enabled_stages(path):
     return on
 
 
+def stage_guard_rules(rep, cl, io, li, f_io):
+    """Each stage runs exactly when its own object is present (objects created under the same option count as one)."""
+    for bp in li.body_paths:
+        if not bp.feasible() or bp.result is not None:
+            continue
+        on = enabled_stages(bp)
+        called = {}
+        for e in bp.effects:
+            if e.kind == "call":
+                st = io.classify_call(e.a)
+                if st:
+                    called[st] = e
+        for st, fields in STAGE_FIELDS.items():
+            vals = [on.get(f) for f in fields]
+            if st in called:
+                # the stage runs: its own object (or one created under exactly the same option, e.g. the other address family) was found present
+                for f_ in fields:
+                    same_opt = [g_ for g_, opts_ in STAGE_OPTIONS.items() if opts_ == STAGE_OPTIONS.get(f_)]
+                    tested = any(on.get(g_) is True for g_ in same_opt)
+                    rep.ob(cl + ".stage-guard", st, tested, "stage %s runs on a path that never found its own object self.%s present (%s): another feature's object decides, and the call can receive None" % (st, f_, bp.describe()[:120]), W(f_io),
+                           key="%s.stage-guard|%s" % (cl, st), nontrivial=False)
+            if st not in called:
+                # the stage is skipped: impossible when its own object (and everything created under the same option) is present
+                assume = {}
+                for f_ in fields:
+                    for g_, opts_ in STAGE_OPTIONS.items():
+                        if opts_ == STAGE_OPTIONS.get(f_):
+                            assume[("compare", ("is",), (("attr", SELF, g_), ("const", None)))] = False
+                skipped_anyway = bp.possible(assume) is not False
+                rep.ob(cl + ".stage-guard", st, not skipped_anyway, "stage %s can be skipped although its own object is present (%s): some other feature's state decides whether it runs" % (st, bp.describe()[:140]), W(f_io),
+                       key="%s.stage-guard|%s" % (cl, st), nontrivial=False)
+            if any(v is False for v in vals):
+                ok = st not in called
+                rep.ob(cl + ".stage-guard", st, ok, "stage %s runs although its own object is None (%s)" % (st, bp.describe()[:100]), W(f_io), key="%s.stage-guard|%s" % (cl, st), nontrivial=False)
+            elif all(v is True for v in vals):
+                ok = st in called
+                rep.ob(cl + ".stage-guard", st, ok, "stage %s is skipped although its own object is present — some other feature's state decides (%s)" % (st, bp.describe()[:140]), W(f_io), key="%s.stage-guard|%s" % (cl, st), nontrivial=False)
+
+
 def line_loop_rules(ctx, rep, cl, require_readlines=False):
     io = IoModel(ctx)
     fn = io.fn
@@ -142,6 +181,7 @@ def line_loop_rules(ctx, rep, cl, require_readlines=False):
             rep.ob(cl + ".stage-order", fn.name, order_ok, "stages on this path run in order %s; fixed order is secrets, IPv6, IPv4, words, AS numbers" % names, w, key=cl + ".stage-order|anonymize_io", nontrivial=(n <= 3))
             if len(names) == 5:
                 full = stages
+    stage_guard_rules(rep, cl, io, li, fn)
     # every branch decision in the loop body is a test of a stage object (or the debug-only comparison of input and output line)
     foreign = set()
     import ast as _ast
@@ -442,24 +482,6 @@ def c15(ctx, rep):
     if loopinfo is not None:
         path, li, full = loopinfo
         rep.ob("C15.all-enabled-path", "anonymize_io", full is not None, "a loop-body path with all five stages enabled exists and chains them", W(f_io), key="C15.all-enabled-path|anonymize_io")
-        for bp in li.body_paths:
-            if not bp.feasible() or bp.result is not None:
-                continue
-            on = enabled_stages(bp)
-            called = {}
-            for e in bp.effects:
-                if e.kind == "call":
-                    st = io.classify_call(e.a)
-                    if st:
-                        called[st] = e
-            for st, fields in STAGE_FIELDS.items():
-                vals = [on.get(f) for f in fields]
-                if any(v is False for v in vals):
-                    ok = st not in called
-                    rep.ob("C15.stage-guard", st, ok, "stage %s runs although its own object is None (%s)" % (st, bp.describe()[:100]), W(f_io), key="C15.stage-guard|%s" % st, nontrivial=False)
-                elif all(v is True for v in vals):
-                    ok = st in called
-                    rep.ob("C15.stage-guard", st, ok, "stage %s is skipped although its own object is present — some other feature's state decides (%s)" % (st, bp.describe()[:140]), W(f_io), key="C15.stage-guard|%s" % st, nontrivial=False)
         # arguments at the five call sites (from the all-enabled chain)
         if full is not None:
             f_rmi = p.find_function("replace_matching_item")
